@@ -1,5 +1,5 @@
 #!/usr/bin/env python3
-"""refac_eval.py Cxx N [--root /tmp/refac] : a behaviour-preserving refactoring written by an independent sub-agent must
+"""refac_eval.py Cxx N [--root /tmp/refac] [--as M] [--props a,b] [--no-suite] : a behaviour-preserving refactoring written by an independent sub-agent must
 (1) keep the suite green in the author's worktree and (2) leave EVERY check silent.  Stores /verif/refactors/Cxx-N/."""
 import json
 import os
@@ -27,7 +27,8 @@ def main():
     props = sys.argv[sys.argv.index("--props") + 1].split(",") if "--props" in sys.argv else ALL
     wt = f"{root}/{pid}"
     patch = os.path.join(wt, f"refac_{n}.patch")
-    out_dir = os.path.join(VERIF, "refactors", f"{pid}-{n}")
+    out_n = sys.argv[sys.argv.index("--as") + 1] if "--as" in sys.argv else n
+    out_dir = os.path.join(VERIF, "refactors", f"{pid}-{out_n}")
     if not os.path.exists(patch):
         patch = os.path.join(out_dir, "patch.diff")
     suite = None
@@ -52,7 +53,7 @@ def main():
             alarms[p_] = {"rc": rc, "violations": [v["key"] for v in viol][:8], "details": [v.get("detail", "")[:300] for v in viol][:8]}
             if rc not in (0, 1):
                 alarms[p_]["tail"] = stdout[-800:]
-    print(f"== {pid}-{n}: suite={suite} alarms={ {k: v['violations'][:3] for k, v in alarms.items()} }")
+    print(f"== {pid}-{out_n}: suite={suite} alarms={ {k: v['violations'][:3] for k, v in alarms.items()} }")
     os.makedirs(out_dir, exist_ok=True)
     if os.path.abspath(patch) != os.path.abspath(os.path.join(out_dir, "patch.diff")):
         shutil.copy(patch, os.path.join(out_dir, "patch.diff"))
